@@ -18,13 +18,15 @@ import random
 
 ID = "C02"
 BOUND = {
-    "quick": "trees over atoms {a,b,x,idx,2,0.5}, operators + - * / ^ < >, unary minus, 27 functions (D I D2 LOG ABS SQRT DIODE "
-             "SIGN EXP COS SIN TAN SUM AVG VAR STD MSE RMSE MAD MIN MAX MEDIAN ARGMIN ARGMAX) and >>/<< atoms: every tree of "
-             "height <=2 (all 8 vector sets, n=1,2,5, with and without '=', reflexive forms, direct Operator objects); every "
-             "height-3 tree with an atom on one side of the root, every unary root over a height-2 tree, 1/12 of the remaining "
-             "height-3 trees (2 vector sets each); 5000 random trees of height 4..6 over 7 names / 10 literals on random vectors",
-    "thorough": "as quick, but EVERY height-3 tree (binary root over two height<=2 trees, ~10^6) on 2 vector sets each, and "
-                "150000 random trees of height 4..6",
+    "quick": "trees over atoms {a,b,x,idx,2,0.5}, operators + - * / ^ < >, unary minus, 24 functions (D I D2 ABS SQRT DIODE SIGN "
+             "EXP LOG COS SIN TAN SUM AVG VAR STD MSE RMSE MAD MIN MAX MEDIAN ARGMIN ARGMAX) and 4 >>/<< atoms: all 364 trees of "
+             "height <=2 on all 8 vector sets (n=1,2,3,5; zeros, negatives, equal values, NaN) x {no '=', new name, existing "
+             "name, x, y, z, += -= *= /= ^=} plus the direct Operator object; every height-3 tree with an atom on one side of "
+             "the root, every unary root over a height-2 tree, 1/12 of the remaining height-3 trees (2 vector sets without '=' "
+             "and 1 with, each); 34 hand-written spellings; 5000 random trees of height 4..6 over 7 names / 10 literals x 3 "
+             "random vector sets; two 20/10-evaluation items for the two known defects",
+    "thorough": "as quick, but EVERY height-3 tree (binary root over two height<=2 trees, ~9*10^5 trees), and 150000 random "
+                "trees of height 4..6 x 3 random vector sets",
 }
 RULE = ("case = work item (set of trees x vector sets x assignment mode); a (tree, vectors) pair is non-trivial when ordinary "
         "arithmetic defines a value at every observation (otherwise it is not run); distinct by (text, vectors, mode)")
@@ -408,6 +410,7 @@ def cases(tier, seed):
        rand  : `count` random trees of height 4..6 on random vectors
        lit   : literal-only right-hand side assigned to an existing feature / a coordinate
        cmp   : comparison whose right operand is parenthesised
+       forms : hand-written spellings (a--b, **, F(x) / F{x}, blanks, redundant parentheses, chains) against their trees
        one   : a single (tree, vectors, mode) -- replay form"""
     rnd = random.Random(seed)
     quick = tier == "quick"
@@ -416,6 +419,7 @@ def cases(tier, seed):
         yield dict(kind="t2", lo=lo, hi=min(n2, lo + 12))
     yield dict(kind="lit")
     yield dict(kind="cmp")
+    yield dict(kind="forms")
     for root in ["neg"] + ALL_FN:
         yield dict(kind="un", root=root, seed=rnd.randrange(1 << 30))
     na = len(ATOMS)
@@ -482,12 +486,35 @@ def _units(case):
         for t in (["l", "2"], ["b", "+", ["l", "2"], ["l", "0.5"]], ["u", ["l", "2"]], ["b", "<", ["l", "0.5"], ["l", "2"]]):
             for mode in ("over", "x", "z", "+="):
                 yield t, VECSETS[2], mode, None, False
-    elif kind == "cmp":
+    elif kind == "forms":  # spellings the evaluator rewrites before parsing; `style` is the literal text here
         a, b, two = ["n", "a"], ["n", "b"], ["l", "2"]
-        for t in (["b", "<", a, ["b", "+", b, two]], ["b", ">", a, ["b", "*", b, two]], ["b", ">", ["b", "+", a, two], ["u", b]],
-                  ["b", "*", two, ["b", "<", a, ["b", "<", b, a]]]):
+        neg = lambda e: ["u", e]  # noqa: E731
+        B = lambda o, p, q: ["b", o, p, q]  # noqa: E731
+        for text, t in (("a--b", B("-", a, neg(b))), ("a+-b", B("+", a, neg(b))), ("a - - b * 2", B("-", a, neg(B("*", b, two)))),
+                        ("a--b^2-a", B("-", B("-", a, neg(B("^", b, two))), a)), ("a**2", B("^", a, two)),
+                        ("a ** b ** 2", B("^", B("^", a, b), two)), ("2**a*b", B("*", B("^", two, a), b)),
+                        ("D(a)", ["f", "D", a]), ("I(a)+D{b}", B("+", ["f", "I", a], ["f", "D", b])),
+                        ("SUM(a)*MAD(b)", B("*", ["f", "SUM", a], ["f", "MAD", b])), ("ARGMIN(a)-MIN{b}", B("-", ["f", "ARGMIN", a], ["f", "MIN", b])),
+                        ("STD(a)+RMSE(b)+MSE(a)", B("+", B("+", ["f", "STD", a], ["f", "RMSE", b]), ["f", "MSE", a])),
+                        ("  a +  b ", B("+", a, b)), ("((a))*(b)", B("*", a, b)), ("(((a+b)))", B("+", a, b)),
+                        ("-a", neg(a)), ("-(a+b)", neg(B("+", a, b))), ("(-a)^2", B("^", neg(a), two)), ("-a^2", neg(B("^", a, two))),
+                        ("2*(-a)", B("*", two, neg(a))), ("-a*b", neg(B("*", a, b))), ("-a-b", B("-", neg(a), b)),
+                        ("-2", neg(two)), ("(-2)*a", B("*", neg(two), a)), ("ABS{-a}", ["f", "ABS", neg(a)]),
+                        ("a-(-(-b))", B("-", a, neg(neg(b)))), ("a*2^2", B("*", a, B("^", two, two))),
+                        ("a/b/2", B("/", B("/", a, b), two)), ("a-b-2", B("-", B("-", a, b), two)), ("2-a-b", B("-", B("-", two, a), b)),
+                        ("2/a/b", B("/", B("/", two, a), b)), ("a^b^2", B("^", B("^", a, b), two)), ("a<b<2", B("<", B("<", a, b), two)),
+                        ("a>b+2*a^2", B(">", a, B("+", b, B("*", two, B("^", a, two)))))):
+            for vs in (VECSETS[5], VECSETS[4], VECSETS[2]):
+                for mode in ("none", "new", "over", "x", "-="):
+                    if not (literal_only(t) and mode in ("over", "x")):
+                        yield t, vs, mode, text, False
+    elif kind == "cmp":  # `style` is the literal text
+        a, b, two = ["n", "a"], ["n", "b"], ["l", "2"]
+        for text, t in (("a<(b+2)", ["b", "<", a, ["b", "+", b, two]]), ("a>(b*2)", ["b", ">", a, ["b", "*", b, two]]),
+                        ("(a+2)>(b)", ["b", ">", ["b", "+", a, two], b]), ("a+2>(-b)", ["b", ">", ["b", "+", a, two], ["u", b]]),
+                        ("2*(a<(b<a))", ["b", "*", two, ["b", "<", a, ["b", "<", b, a]]])):
             for mode in ("none", "new"):
-                yield t, VECSETS[5], mode, None, False
+                yield t, VECSETS[5], mode, text, False
     elif kind in ("un", "bin"):
         rnd = random.Random(case["seed"])
         deep = T[len(ATOMS):]
@@ -592,7 +619,7 @@ def check_unit(tree, vs, mode, style, direct, dedicated=True):
     except Undefined:
         return [], False
     want = [val.v] * n if val.scalar else val.v
-    rhs = to_text(tree, random.Random(style) if style is not None else None, True)
+    rhs = style if isinstance(style, str) else to_text(tree, random.Random(style) if style is not None else None, True)
     lhs = {"none": None, "new": "c", "over": "a", "x": "x", "y": "y", "z": "z"}.get(mode, "a")
     text = rhs if lhs is None else lhs + ("=" if len(mode) != 2 else mode) + rhs
     tag = tag_of(tree, mode, text)
@@ -603,7 +630,7 @@ def check_unit(tree, vs, mode, style, direct, dedicated=True):
     trk = build(V)
     before = snapshot(trk)
     try:
-        use_bracket = style is not None and style % 2 == 1 and any(ch in text for ch in "+-*/^<>()=")
+        use_bracket = isinstance(style, int) and style % 2 == 1 and any(ch in text for ch in "+-*/^<>()=")
         got = trk[text] if use_bracket else trk.operate(text)
     except BaseException as e:  # noqa: B902  (the evaluator calls exit() on some paths)
         return ["%s raised %s: %s; ordinary arithmetic gives %s" % (what, type(e).__name__, str(e)[:100], want)], True
